@@ -751,8 +751,38 @@ pub fn lane_timing(tier: Tier, seed: u64) -> Vec<Scenario> {
                                 pretty: false,
                                 check: vec!["C05".into(), "C12".into(), "C14".into(), "C15".into(), "C18".into(), "C20".into()],
                             };
+                            // the same run with a document added by -A / -P: the limits must not care
+                            // (only for classes that do not depend on exact alignment)
+                            let with_extra = tier == Tier::Cli
+                                && wait == W::None
+                                && tl == TestLim::Absent
+                                && matches!(cls, DurClass::Short | DurClass::Long | DurClass::Hang)
+                                && !matches!(dl, DocLim::Absent);
+                            let extra = if with_extra {
+                                let mut e = sc.clone();
+                                let mut esim = e.sim.clone();
+                                let ext = if format == Format::Cram { "t" } else { "md" };
+                                let mut shared = doc(&format!("shared/extra.{}", ext), format, vec![g.test(&Plan::new(Fate::Pass), &mut esim.programs)]);
+                                shared.main = false;
+                                e.sim = esim;
+                                if pos == 2 {
+                                    e.cli.prepend.push(format!("shared/extra.{}", ext));
+                                } else {
+                                    e.cli.append.push(format!("shared/extra.{}", ext));
+                                }
+                                e.cli.relative_paths = pos == 1;
+                                e.docs.push(shared);
+                                e.lane = format!("{}/with-{}", e.lane, if pos == 2 { "P" } else { "A" });
+                                Some(e)
+                            } else {
+                                None
+                            };
                             fill_expectations(&mut sc, &mut g);
                             out.push(sc);
+                            if let Some(mut e) = extra {
+                                fill_expectations(&mut e, &mut g);
+                                out.push(e);
+                            }
                         }
                     }
                 }
@@ -814,6 +844,11 @@ pub fn payloads(g: &mut G, tag: &str) -> Vec<(&'static str, Vec<u8>)> {
         ("nul-esc", format!("{}\0\x1b[x\x1b\n", tag).into_bytes()),
         ("invalid-utf8", vec![0xff, 0xfe, b'\n', 0xc3, 0x28, b'\n', 0xe2, 0x82, b'\n']),
         ("sgr", format!("\x1b[31m{}-red\x1b[0m\n\x1b[1;32m{}\x1b[m\n", tag, tag).into_bytes()),
+        // control characters that are no escape sequences next to real ones (finding P)
+        (
+            "sgr-controls",
+            format!("\x1b[31m{}-red\x1b[0m\ttab\x07bel\r\n{}\x08bs \x1b[1mlone\x1b[m\rcr\n\x0c{}-ff\x0b\n", tag, tag, tag).into_bytes(),
+        ),
         ("divider-like", format!("~~~~~~~~EXECDIVIDER::x::0::0\n{}\n", tag).into_bytes()),
         ("divider-prefix-only", format!("{} ~~~~~~~~EXECDIVIDER::\n", tag).into_bytes()),
         ("divider-like-unterminated", format!("{}\n~~~~~~~~EXECDIVIDER::x::1::7", tag).into_bytes()),
@@ -864,15 +899,15 @@ pub fn lane_bytes(seed: u64) -> Vec<Scenario> {
                             // interleaved on both at once, in pieces
                             // (cut at line boundaries so that no escape sequence is torn apart)
                             let cut = |want: usize| -> usize {
-                                if kind != "sgr" {
+                                if !kind.starts_with("sgr") {
                                     return want;
                                 }
                                 pl.iter().take(want.max(1)).rposition(|c| *c == b'\n').map(|p| p + 1).unwrap_or(0)
                             };
                             let third = cut(pl.len() / 3);
                             let _ = third;
-                            let third = if kind == "sgr" { cut(pl.len() / 2) / 1 } else { pl.len() / 3 };
-                            let two = if kind == "sgr" { third } else { 2 * third };
+                            let third = if kind.starts_with("sgr") { cut(pl.len() / 2) / 1 } else { pl.len() / 3 };
+                            let two = if kind.starts_with("sgr") { third } else { 2 * third };
                             ops.push(Op::Out { fd: 1, data: Bytes(pl[..third].to_vec()) });
                             ops.push(Op::Out { fd: 2, data: Bytes(pl[third..two].to_vec()) });
                             ops.push(Op::Out { fd: 1, data: Bytes(pl[two..].to_vec()) });
@@ -895,7 +930,7 @@ pub fn lane_bytes(seed: u64) -> Vec<Scenario> {
                 let mut d = doc("bytes.md", Format::Md, tests);
                 // settings, rotated over the layers
                 let keep = [None, Some(true), Some(false)][(variant % 3) as usize];
-                let strip = kind == "sgr" && variant >= 3;
+                let strip = kind.starts_with("sgr") && variant >= 3;
                 let stream = [Stream::Stdout, Stream::Combined, Stream::Stderr][((variant / 2) % 3) as usize];
                 if script {
                     d.defaults.keep_crlf = keep;
